@@ -1,6 +1,7 @@
 package checks
 
 import (
+	"context"
 	"errors"
 	"fmt"
 	"strings"
@@ -325,6 +326,9 @@ func c18Unit(c *RunCtx, unit int) {
 			switch call.Op {
 			case "Load", "Save", "LoadByConfirmSelector", "LoadByRecoverSelector":
 				kinds = append(kinds, authboss.ErrUserNotFound)
+				if call.Op == "Save" {
+					kinds = append(kinds, context.Canceled) // the client hung up while the row was being written
+				}
 			case "UseRememberToken":
 				kinds = append(kinds, authboss.ErrTokenNotFound)
 			case "Create":
@@ -332,7 +336,7 @@ func c18Unit(c *RunCtx, unit int) {
 			}
 		}
 		for _, fe := range kinds {
-			kindName := map[error]string{errGeneric: "generic", authboss.ErrUserNotFound: "not-found", authboss.ErrTokenNotFound: "token-not-found", authboss.ErrUserFound: "user-found"}[fe]
+			kindName := map[error]string{errGeneric: "generic", authboss.ErrUserNotFound: "not-found", authboss.ErrTokenNotFound: "token-not-found", authboss.ErrUserFound: "user-found", context.Canceled: "context-canceled"}[fe]
 			st, s, pvs, serr := c18Run(c, script, err500, jsonMode, unit, k, fe)
 			if serr != "" {
 				c.Stats.Inconclusive = append(c.Stats.Inconclusive, script.Name+": "+serr)
